@@ -17,7 +17,7 @@ func TestSurvey(t *testing.T) {
 		def := reflect.ValueOf(k.newCfg())
 		fmt.Printf("== %s (%s)\n", k.name(), def.Type())
 		for _, n := range k.Nodes {
-			kind := map[nodeKind]string{kStruct: "STRUCT", kLeaf: "leaf", kSkipped: "SKIP"}[n.Kind]
+			kind := map[nodeKind]string{kStruct: "STRUCT", kLeaf: "leaf", kSkipped: "SKIP", kList: "LIST"}[n.Kind]
 			dv := ""
 			if v, ok := lookup(def, n.Path); ok && n.Kind == kLeaf {
 				dv = fmt.Sprintf("%v", v.Interface())
